@@ -949,7 +949,7 @@ pub fn run(ctx: &mut Ctx) {
     if ctx.shard == 0 {
         shipped(ctx);
     }
-    let n = ctx.budget(40_000, 4_000_000);
+    let n = ctx.budget(40_000, 12_000_000);
     for _ in 0..n {
         let seed = ctx.rng.next();
         let mut r = Rng::new(seed);
